@@ -44,6 +44,7 @@ def _c19(ctx):
     lib.tlc(ctx, "mc_listener", "MC_Listener.tla", "MC_Listener_thorough.cfg" if ctx.thorough else "MC_Listener.cfg",
             workers=4, timeout=1800)
     _reject(ctx, "MC_Listener_as_shipped.cfg", "Invariant C19_NeverStuck is violated")
+    _reject(ctx, "MC_Listener_bounded_drain.cfg", "Invariant C19_NeverStuck is violated")
     gen = lib.tlc(ctx, "gen_listener", "Gen_Listener.tla", "Gen_Listener_thorough.cfg" if ctx.thorough else "Gen_Listener.cfg",
                   workers=1, timeout=1800, count=False)
     beh = ctx.path("conns.ndjson")
